@@ -170,8 +170,8 @@ def parse_enum(cls):
 
 
 def parse_ser(fn, enums, strp):
-    if [a.arg for a in fn.args.args] != ["self"]:
-        _fail(fn, "ser(self) expected")
+    if [a.arg for a in fn.args.args] != ["self"] or fn.decorator_list:
+        _fail(fn, "undecorated ser(self) expected")
     expr = _single_return(fn)
     if isinstance(expr, ast.Constant) and expr.value == b"":
         return []
@@ -198,7 +198,7 @@ def parse_ser(fn, enums, strp):
 
 
 def parse_deser(fn, enums, strp):
-    if [a.arg for a in fn.args.args] != ["cls", "data"] or not any(_is_name(d, "classmethod") for d in fn.decorator_list):
+    if [a.arg for a in fn.args.args] != ["cls", "data"] or not (len(fn.decorator_list) == 1 and _is_name(fn.decorator_list[0], "classmethod")):
         _fail(fn, "@classmethod deser(cls, data) expected")
     buf = "data"
     reads = []      # (local name, kind)
@@ -282,7 +282,24 @@ def parse_fields(cls):
 
 def parse_api(src: str) -> dict:
     tree = ast.parse(src)
+    # only declarations at module level: anything that could patch a class or a table afterwards is refused
+    for n in tree.body:
+        ok = (isinstance(n, (ast.Import, ast.ImportFrom, ast.FunctionDef, ast.ClassDef))
+              or (isinstance(n, ast.AnnAssign) and isinstance(n.target, ast.Name))
+              or (isinstance(n, ast.Assign) and all(isinstance(t, ast.Name) for t in n.targets))
+              or (isinstance(n, ast.Expr) and isinstance(n.value, ast.Constant) and isinstance(n.value.value, str)))
+        if not ok:
+            _fail(n, "module-level statement not recognised")
+    names = [n.name for n in tree.body if isinstance(n, (ast.FunctionDef, ast.ClassDef))]
+    names += [t.id for n in tree.body if isinstance(n, ast.Assign) for t in n.targets]
+    names += [n.target.id for n in tree.body if isinstance(n, ast.AnnAssign)]
+    dup = sorted({x for x in names if names.count(x) > 1})
+    if dup:
+        raise Unrecognised(f"api.py: module-level names bound twice: {dup}")
     funcs = {n.name: n for n in tree.body if isinstance(n, ast.FunctionDef)}
+    for need in ("ser_str", "deser_str", "ser", "deser"):
+        if need in funcs and funcs[need].decorator_list:
+            _fail(funcs[need], "decorated serde function")
     classes = [n for n in tree.body if isinstance(n, ast.ClassDef)]
     for need in ("ser_str", "deser_str", "ser", "deser"):
         if need not in funcs:
